@@ -145,6 +145,57 @@ def header_family(chk, tier):
     chk.validate("Trace_Header", traces, inputs, shard=40)
 
 
+from . import drive_session as DSS
+
+
+def session_family(pid, tier, chk):
+    quick = tier == "quick"
+    K, F, solo = DSS.measure()
+    chk.extra["measured_job_steps"] = {"K": K, "F": F}
+    extra = {"threads": ["t1", "t2", "t3"], "K": K, "F": F}
+    if not DSS.shared_counterexample(chk, K, F):
+        raise tlc.MachineryError("the shared-context variant of Session.tla no longer violates SoloEq: the schedules would not discriminate")
+    chk.extra["shared_context_variant_refuted_by_TLC"] = True
+    if pid == "C15":
+        beh = DSS.mc_session(chk, "t2", K, F, emit=True)
+        chk.exhaustive_parts.append("MC_Session: every interleaving of 2 threads (%d schedules) with thread-local context; "
+                                    "shared-context variant refuted" % len(beh))
+        if not quick:
+            DSS.mc_session(chk, "t3", K, F, emit=False)
+            chk.exhaustive_parts.append("MC_Session: every interleaving of 3 threads")
+        chk.rng.shuffle(beh)
+        beh = beh[: (150 if quick else 3000)]
+        traces, inputs, stuck = DSS.session_traces(beh, K, F, solo, False, "sch")
+        # single calls from a fresh worker thread, and free-running threads under a minimal switch interval
+        import sys as _sys
+        old = _sys.getswitchinterval()
+        _sys.setswitchinterval(1e-6)
+        try:
+            free = []
+            for n in ([2, 3, 4, 8] if quick else [2, 3, 4, 5, 6, 7, 8] * 20):
+                names = ["j1", "j2", "j3", "j1", "j2", "j3", "j1", "j2"][:n]
+                free.append({"prog": {"t%d" % (k + 1): [names[k]] * 3 for k in range(n)}})
+            free.append({"prog": {"t1": ["j1"]}})
+            extra["threads"] = ["t%d" % k for k in range(1, 9)]
+            t2, i2, _ = DSS.session_traces(free, K, F, solo, False, "free")
+        finally:
+            _sys.setswitchinterval(old)
+        chk.rules.append("%d TLC-enumerated 2-thread interleavings forced on real threads by a cooperative scheduler at the spec's "
+                         "yield points + %d free-running runs of 2-8 threads (switch interval 1e-6) + a call from a fresh worker thread; "
+                         "%d schedules could not be imposed" % (len(beh), len(free), stuck))
+        chk.validate("Trace_Session", traces + t2, dict(inputs, **i2), shard=40, extra_constants=DSS.TRACE_CONSTS, batch_extra=extra)
+    else:
+        beh = DSS.mc_session(chk, "hist3" if quick else "hist", K, F, emit=True)
+        chk.exhaustive_parts.append("MC_Session: every history of <=%d calls over {nested DAG render, tree render, render failing after 1 / 2 "
+                                    "reads, re-render of an earlier registry for another framework/layout} (%d histories)" % (3 if quick else 4, len(beh)))
+        for b in beh:
+            b.pop("sched", None)
+        traces, inputs, _ = DSS.session_traces(beh, K, F, solo, True, "hist")
+        chk.rules.append("%d TLC-enumerated call histories replayed in one process; after every call the output hash is compared with a "
+                         "fresh-process reference and the hidden state (thread context, default registry) is logged" % len(beh))
+        chk.validate("Trace_Session", traces, inputs, shard=40, extra_constants=DSS.TRACE_CONSTS, batch_extra=extra)
+
+
 def run(pid, tier, replay=None):
     chk = Check(pid, tier)
     if pid in ("C01", "C02", "C07", "C08", "C13"):
@@ -166,6 +217,9 @@ def run(pid, tier, replay=None):
         return chk.finish()
     if pid in ("C16", "C17"):
         cli_family(pid, tier, chk)
+        return chk.finish()
+    if pid in ("C14", "C15"):
+        session_family(pid, tier, chk)
         return chk.finish()
     if pid == "C19":
         header_family(chk, tier)
